@@ -120,6 +120,15 @@ func findUnescaped(s string, find byte) (string, int) {
 	return b.String(), -1
 }
 
+// IsPathOrDescendant tells whether path is ancestor itself or lies beneath it, at path element boundaries:
+// /a/b covers /a/b, /a/b/c and /a/b[k=1]/c but not /a/bc.
+func IsPathOrDescendant(path string, ancestor string) bool {
+	if !strings.HasPrefix(path, ancestor) {
+		return false
+	}
+	return len(path) == len(ancestor) || path[len(ancestor)] == '/' || path[len(ancestor)] == '['
+}
+
 // SplitPaths splits multiple gnmi paths
 func SplitPaths(paths []string) [][]string {
 	out := make([][]string, len(paths))
